@@ -180,6 +180,7 @@ class Executor:
         self.solver_hist = {}     # s -> list of (op index, status)
         self.op_traj = {}         # op index -> (traj, offset, N)
         self.stop_objs = {}       # op index -> (dict object passed, pristine content)
+        self.tsave_objs = {}      # op index -> (list/array object passed, pristine values)
         self._odisc = None
 
     # ------------------------------------------------------------------
@@ -612,8 +613,14 @@ class Executor:
                 stop["tottime"] = tottime
             if "maxit" in sp:
                 stop["maxit"] = int(sp["maxit"]) if float(sp["maxit"]) == int(sp["maxit"]) else float(sp["maxit"])
-        ts = _resolve_times(op.get("tsave", []), times, hs, t0, tottime, H)
-        ts = _increasing(ts, t0)
+        ts_shared = self.tsave_objs.get(op.get("tsave_share")) if op.get("tsave_share") is not None else None
+        if ts_shared is not None:
+            # the very list/array object an earlier call was given (callers re-use their
+            # save-time list for the restart); judged against what the caller put into it
+            ts = list(ts_shared[1])
+        else:
+            ts = _resolve_times(op.get("tsave", []), times, hs, t0, tottime, H)
+            ts = _increasing(ts, t0)
         if not ts and not stop:
             stop = {"maxit": 3}
         r.tsave = ts
@@ -632,10 +639,14 @@ class Executor:
             ts_arg = [np.float64(v) for v in ts]
         else:
             ts_arg = list(ts)
-        if tt in ("list", "tuple") and any(p.get("k") == "int" for p in op.get("tsave", [])):
+        if ts_shared is not None:
+            ts_arg = ts_shared[0]
+        elif tt in ("list", "tuple") and any(p.get("k") == "int" for p in op.get("tsave", [])):
             # integral save times are handed over as Python ints, like callers write them
             conv = [int(v) if float(v).is_integer() and abs(v) < 2 ** 40 else v for v in ts]
             ts_arg = tuple(conv) if tt == "tuple" else conv
+        if ts_shared is None:
+            self.tsave_objs[i] = (ts_arg, list(ts))
         mons = self._mons(op, s)
         directives = {"dtlocal": True} if r.dtlocal else {}
         if op.get("dir", {}).get("verbose"):
